@@ -3,13 +3,24 @@ from .. import common
 from . import _sched, c07x_phases
 
 PROP = "C07"
-MODULES = ["XpmVerif.Properties.C07"]
+MODULES = ["XpmVerif.Properties.C07", "XpmVerif.Properties.C07Reenter"]
 GEN = dict(max_jobs=7, max_tokens=1, resubmit=True, markers=True, fail_p=0.4)
 RULE = ('random DAG workloads with many failing jobs (p=0.4), failures delivered before / while / after dependents are submitted, x random schedules + exhaustive schedules of 5 small workloads; monitors: dependents of a failed job are never launched and end in error, jobs without failed ancestor are not cancelled, wait() raises iff some job failed; non-trivial = some dependency and >= 2 out-of-FIFO deliveries')
 
 
 def prove(ctx):
-    _sched.prove(ctx, MODULES)
+    # which per-use fields `experiment.__enter__` sets anew (Generated/XpEnterResets.lean; source obligation
+    # C07Reenter.enter_resets_source); a shape the AST reader does not find is probed on the real class entered twice
+    from ..translate import xpenter
+    cache = {}
+
+    def probe(field):
+        if "p" not in cache:
+            cache["p"] = xpenter.behavioural_probe(common.REPO)
+        return cache["p"](field)
+    msg = xpenter.generate(common.REPO, common.LEAN, probe=probe)
+    ctx.notes.append(f"translator(xpenter): {msg[1]}")
+    _sched.prove(ctx, MODULES, extra_msgs=[msg])
 
 
 def correspond(ctx):
